@@ -456,7 +456,27 @@ func c04Decoded(r *Run) {
 	w := r.ForeignWire(t, spec, genKnobs(t), ent, false, 0, false)
 	r.Op("FOREIGN_ISSUE", "%s alg=%s", spec, algKind)
 	r.Outcome("decoded/" + kind.String() + "/" + algKind + "/" + extClass(spec.External))
-	rc, err := r.Decode(kind, w.B)
+	var rc *Received
+	var err error
+	if t.Bool(1, 3, "c04.dec.reuse") {
+		// the destination variable held another message (of the same kind,
+		// naming the verifier's algorithm) before: the alg consulted must
+		// still be the one in THIS message's protected bytes
+		a := key.Alg
+		prev := &MsgSpec{Kind: kind, Payload: []byte("earlier"), External: nil}
+		pl := genLayer(t, LayerOpts{MaxExtra: 2, Alg: &a})
+		if kind == refcose.KSignTagged {
+			prev.Layer = genLayer(t, LayerOpts{MaxExtra: 1})
+			prev.Signers = []*SignerSpec{{Layer: pl, Key: key}}
+		} else {
+			prev.Layer, prev.Key = pl, key
+		}
+		pw := r.ForeignWire(t, prev, Knobs{}, ent, false, 0, false)
+		rc, err = r.DecodeReusing(kind, pw.B, w.B)
+		r.Fired("dest.reuse.ok")
+	} else {
+		rc, err = r.Decode(kind, w.B)
+	}
 	if err != nil {
 		// a text alg is a conforming header; refusing the message is C07's business
 		r.Outcome("decode-refused")
